@@ -755,6 +755,10 @@ def run(ctx):
     for fill in (0, 1):
         lazy.append(("lazy %d 0 %s" % (fill, doc_tokens(good[:first_pre_end])), "first=data consumed=small"))
         lazy.append(("lazy %d 0 %s" % (fill, doc_tokens(STATE["bs"] + b"<pre>\n0QUJD\n</pre>")), "first=data consumed=small"))
+    # a pre element that never ends, its words separated by inner markup (every text token short): the first decoded byte
+    # must still arrive after a bounded part of it
+    lazy.append(("lazy 3 0 %s" % doc_tokens(STATE["bs"] + b"<pre>\n0QUJD"), "first=data consumed=small"))
+    lazy.append(("lazy 3 0 %s" % doc_tokens(b"<pre>0QUJD QUJD<i></i>"), "first=data consumed=small"))
     # the same with a BAD base64 word in the complete first element: the error must be returned after a bounded part
     # of the endless (fill 0, 1) or stalled (fill 2) remainder, whether the bad word is followed by another word of
     # its element (producer parked behind it) or ends it (producer on its way through the filler), at once or after data
